@@ -1397,6 +1397,17 @@ Proof.
 Qed.
 
 (* ------------------------------------------------------------------ Split *)
+Lemma skipn_skipn' : forall {A} a b (l : list A), skipn a (skipn b l) = skipn (b + a) l.
+Proof.
+  intros A a b. revert a. induction b as [|b IH]; intros a l; [reflexivity|].
+  destruct l as [|x l]; [rewrite !skipn_nil; reflexivity|]. cbn [skipn Nat.add]. apply IH.
+Qed.
+
+Lemma skipn_nonempty : forall {A} k (l : list A), (k < List.length l)%nat -> skipn k l <> [].
+Proof.
+  intros A k l H E. assert (X : List.length (skipn k l) = O) by (rewrite E; reflexivity). rewrite skipn_length in X. lia.
+Qed.
+
 Section SplitLemmas.
   Context {A : Type} (d : A).
 
@@ -1407,17 +1418,6 @@ Section SplitLemmas.
     - rewrite firstn_length, skipn_length. unfold zlen in *. lia.
     - intros i Hi. rewrite firstn_length, skipn_length in Hi. rewrite nth_firstn' by lia. rewrite nth_skipn'.
       unfold ix. f_equal. lia.
-  Qed.
-
-  Lemma skipn_skipn' : forall a b (l : list A), skipn a (skipn b l) = skipn (b + a) l.
-  Proof.
-    intros a b. revert a. induction b as [|b IH]; intros a l; [reflexivity|].
-    destruct l as [|x l]; [rewrite !skipn_nil; reflexivity|]. cbn [skipn Nat.add]. apply IH.
-  Qed.
-
-  Lemma skipn_nonempty : forall k (l : list A), (k < List.length l)%nat -> skipn k l <> [].
-  Proof.
-    intros k l H E. assert (X : List.length (skipn k l) = O) by (rewrite E; reflexivity). rewrite skipn_length in X. lia.
   Qed.
 
   (* one size, segments cut at its multiples *)
@@ -1461,7 +1461,7 @@ Section SplitLemmas.
   Proof.
     intros sizes l Hne Hpos.
     assert (Hn : (0 < List.length sizes)%nat) by (destruct sizes; [congruence|cbn; lia]).
-    induction fm as [|fm IH] using lt_wf_ind. intros fs k off cur Hoff Hcur Hfm Hfs.
+    induction fm as [fm IH] using lt_wf_ind. intros fs k off cur Hoff Hcur Hfm Hfs.
     destruct fm as [|fm]; [lia|]. cbn [split_loop].
     destruct (skipn off l) as [|x rest] eqn:Erest.
     - (* end of the list *)
@@ -1517,7 +1517,7 @@ Section SplitLemmas.
             * left. rewrite Ecur'. f_equal.
               replace (S k) with (k + 1)%nat by lia. rewrite Nat.add_mod by lia.
               destruct (Nat.eq_dec (List.length sizes) 1) as [E1|E1]; [rewrite E1 in *; rewrite Nat.mod_1_r in Eend; lia|].
-              rewrite (Nat.mod_small 1) by lia. rewrite Nat.mod_small by lia. lia.
+              rewrite (Nat.mod_small 1) by lia. rewrite (Nat.mod_small (k mod List.length sizes + 1)) by lia. lia.
         - (* the segment reaches the end *)
           rewrite skipn_all2 by (unfold off' in *; lia).
           assert (Eloop : split_loop fm0 sizes cur' (@nil A) = Ok []) by (destruct fm0; [lia|reflexivity]).
@@ -1532,3 +1532,358 @@ Section SplitLemmas.
         apply (Hstep (s0 :: sizes')); [rewrite Hk0; reflexivity|lia|]. intros m Hm. apply IH. lia.
   Qed.
 End SplitLemmas.
+
+Lemma seg_chars : forall s lo hi, 0 <= lo -> hi <= zlen s -> seg VU lo hi (chars s) = chars (seg 0 lo hi s).
+Proof.
+  intros s lo hi H0 H1. unfold seg. apply (tab_chars s (hi - lo) (fun i => lo + i)). intros i Hi. lia.
+Qed.
+
+Lemma split_from_chars : forall sizes s, Forall (fun z => 0 < z) sizes ->
+  forall fs k off, 0 <= off ->
+  s_split_from VU fs k off sizes (chars s) = map chars (s_split_from 0 fs k off sizes s).
+Proof.
+  intros sizes s Hpos. induction fs as [|fs IH]; intros k off H0; [reflexivity|].
+  cbn [s_split_from]. rewrite zlen_chars. destruct (off <? zlen s) eqn:E; [|reflexivity].
+  assert (Hsz : 0 < nth (k mod List.length sizes) sizes 1).
+  { destruct (Nat.lt_ge_cases (k mod List.length sizes) (List.length sizes)) as [Hlt|Hge].
+    - rewrite Forall_forall in Hpos. apply Hpos. apply nth_In. exact Hlt.
+    - rewrite nth_overflow by exact Hge. lia. }
+  cbn [map]. f_equal.
+  - apply seg_chars; lia.
+  - apply IH. lia.
+Qed.
+
+Lemma seg_all : forall {A} (d : A) (l : list A), seg d 0 (zlen l) l = l.
+Proof.
+  intros A d l. symmetry. unfold seg. apply (eq_tab d); [unfold zlen; lia|].
+  intros i Hi. unfold ix. f_equal. lia.
+Qed.
+
+Lemma ok_inj : forall {A} (x y : A), Ok x = Ok y -> x = y.
+Proof. intros A x y H. injection H as H'. exact H'. Qed.
+
+Lemma m_dyad_split : forall a b, canonical a && canonical b = true -> m_dyad "eval_dyad_split" a b = m_split a b.
+Proof. intros a b H. unfold m_dyad. rewrite H. reflexivity. Qed.
+
+Lemma sizes_ok_inv : forall a, sizes_ok a = true ->
+  exists zs, ints_of (members a) = Some zs /\ zints a = zs /\ zs <> [] /\ Forall (fun z => 0 < z) zs.
+Proof.
+  intros a H. destruct a as [n| | | | |la|]; try discriminate H.
+  - exists [n]. cbn in H. apply Z.ltb_lt in H. repeat split; try reflexivity; [discriminate|constructor; [exact H|constructor]].
+  - destruct la as [|x r]; [discriminate H|]. cbn [sizes_ok] in H. apply andb_true_iff in H. destruct H as [_ Hall].
+    assert (G : forall l, forallb (fun v => match v with VI n => 0 <? n | _ => false end) l = true ->
+              exists zs, ints_of l = Some zs /\ List.length zs = List.length l /\ Forall (fun z => 0 < z) zs).
+    { induction l as [|y l IH]; intros Hl; [exists []; repeat split; constructor|].
+      cbn [forallb] in Hl. apply andb_true_iff in Hl. destruct Hl as [Hy Hl]. destruct (IH Hl) as [zs [Hz [Hlen Hp]]].
+      destruct y; try discriminate Hy. apply Z.ltb_lt in Hy. exists (z :: zs). cbn [ints_of]. rewrite Hz.
+      repeat split; [cbn; lia|constructor; assumption]. }
+    destruct (G _ Hall) as [zs [Hz [Hlen Hp]]]. exists zs. cbn [members].
+    repeat split; [exact Hz|unfold zints; cbn [members]; rewrite Hz; reflexivity| |exact Hp].
+    intros ->. cbn in Hlen. lia.
+Qed.
+
+(* the list computation of m_split_gen true, for a non-empty member list *)
+Lemma split_core : forall {A} (d : A) (zs : list Z) (l : list A), zs <> [] -> Forall (fun z => 0 < z) zs -> l <> [] ->
+  match zs with
+  | [a0] =>
+      if zlen l <=? a0 then Ok [l]
+      else Ok (split_at 0 (multiples (List.length l) (Z.to_nat a0) (Z.to_nat a0) (List.length l)) l)
+  | _ => split_loop (S (2 * List.length l + List.length zs)) zs zs l
+  end = Ok (s_split d zs l).
+Proof.
+  intros A d zs l Hne Hpos Hl. unfold s_split.
+  assert (HL : (0 < List.length l)%nat) by (destruct l; [congruence|cbn; lia]).
+  destruct zs as [|a0 [|a1 rest]]; [congruence| |].
+  - inversion Hpos as [|? ? Ha0 _]. subst.
+    destruct (zlen l <=? a0) eqn:E.
+    + apply Z.leb_le in E. f_equal. destruct (List.length l) as [|fs] eqn:EL; [lia|]. cbn [s_split_from].
+      replace (0 <? zlen l) with true by (symmetry; apply Z.ltb_lt; unfold zlen; lia).
+      cbn [List.length]. rewrite Nat.mod_1_r. cbn [nth]. replace (Z.min (0 + a0) (zlen l)) with (zlen l) by lia.
+      rewrite seg_all. f_equal. destruct fs; [reflexivity|]. cbn [s_split_from].
+      replace (0 + a0 <? zlen l) with false by (symmetry; apply Z.ltb_ge; lia). reflexivity.
+    + apply Z.leb_gt in E. f_equal.
+      rewrite <- (Z2Nat.id a0) at 3 by lia.
+      apply (split_multiples d (Z.to_nat a0) l ltac:(lia) (List.length l) (List.length l) 0%nat 0%nat); lia.
+  - apply (split_loop_spec d (a0 :: a1 :: rest) l Hne Hpos (S (2 * List.length l + List.length (a0 :: a1 :: rest))) (List.length l) 0%nat 0%nat);
+      [lia|left; rewrite Nat.mod_0_l by (cbn; lia); reflexivity|cbn [List.length]; lia|lia].
+Qed.
+
+Lemma split_holds : forall a b, canonical a && canonical b = true ->
+  dom_dyad "eval_dyad_split" a b = true ->
+  m_split_gen true a b = s_dyad "eval_dyad_split" a b.
+Proof.
+  intros a b Hc Hd.
+  change (dom_dyad "eval_dyad_split" a b) with (sizes_ok a && is_list_or_str b) in Hd.
+  apply andb_true_iff in Hd. destruct Hd as [Hs Hb].
+  destruct (sizes_ok_inv a Hs) as [zs [Hz [Ezi [Hne Hpos]]]].
+  destruct b as [z|r|c|s|s|l|]; try discriminate Hb.
+  - (* string *)
+    change (s_dyad "eval_dyad_split" a (VS s)) with (Ok (strs (s_split 0 (zints a) s))). rewrite Ezi.
+    unfold m_split_gen. cbn [as_members]. destruct s as [|c s']; [reflexivity|].
+    remember (chars (c :: s')) as l0 eqn:El0. destruct l0 as [|y l0']; [discriminate El0|].
+    cbv beta iota. fold (members a). rewrite Hz.
+    pose proof (split_core VU zs (y :: l0') Hne Hpos ltac:(discriminate)) as Core.
+    assert (Fin : segs true (s_split VU zs (y :: l0')) = Ok (strs (s_split 0 zs (c :: s')))).
+    { rewrite El0. unfold s_split. rewrite split_from_chars by (assumption || lia).
+      replace (List.length (chars (c :: s'))) with (List.length (c :: s')) by (unfold chars; rewrite map_length; reflexivity).
+      unfold segs, okl. rewrite rmap_joined_chars. reflexivity. }
+    destruct zs as [|a0 [|a1 rest]]; [congruence| |].
+    + inversion Hpos as [|? ? Ha0 _]. subst.
+      destruct (zlen (y :: l0') <=? a0) eqn:E.
+      * try rewrite E in Core. rewrite <- Fin. f_equal. apply ok_inj. exact Core.
+      * try rewrite E in Core. apply Z.leb_gt in E.
+        replace (true && (a0 =? 0)) with false by (symmetry; apply andb_false_iff; right; apply Z.eqb_neq; lia).
+        replace (true && (a0 <? 0)) with false by (symmetry; apply andb_false_iff; right; apply Z.ltb_ge; lia).
+        rewrite <- Fin. f_equal. apply ok_inj. exact Core.
+    + rewrite Core. cbn [bind]. exact Fin.
+  - (* list *)
+    change (s_dyad "eval_dyad_split" a (VL l)) with (Ok (lists (s_split VU (zints a) l))). rewrite Ezi.
+    unfold m_split_gen. cbn [as_members]. destruct l as [|x l']; [reflexivity|].
+    cbv beta iota. fold (members a). rewrite Hz.
+    pose proof (split_core VU zs (x :: l') Hne Hpos ltac:(discriminate)) as Core.
+    assert (Fin : segs false (s_split VU zs (x :: l')) = Ok (lists (s_split VU zs (x :: l')))) by reflexivity.
+    destruct zs as [|a0 [|a1 rest]]; [congruence| |].
+    + inversion Hpos as [|? ? Ha0 _]. subst.
+      destruct (zlen (x :: l') <=? a0) eqn:E.
+      * try rewrite E in Core. rewrite <- Fin. f_equal. apply ok_inj. exact Core.
+      * try rewrite E in Core. apply Z.leb_gt in E.
+        replace (true && (a0 =? 0)) with false by (symmetry; apply andb_false_iff; right; apply Z.eqb_neq; lia).
+        replace (true && (a0 <? 0)) with false by (symmetry; apply andb_false_iff; right; apply Z.ltb_ge; lia).
+        rewrite <- Fin. f_equal. apply ok_inj. exact Core.
+    + rewrite Core. cbn [bind]. exact Fin.
+Qed.
+
+Lemma split_dispatch_holds : split_by_segment_size = true -> forall a b, canonical a && canonical b = true ->
+  dom_dyad "eval_dyad_split" a b = true ->
+  m_dyad "eval_dyad_split" a b = s_dyad "eval_dyad_split" a b.
+Proof.
+  intros Hf a b Hc Hd. rewrite m_dyad_split by exact Hc. unfold m_split. rewrite Hf. apply split_holds; assumption.
+Qed.
+
+(* the behaviour before the fix: commit *)
+Lemma split_without_fix :
+  res_eqb (m_split_gen false (VI 3) (VL [VI 1; VI 2; VI 3; VI 4])) (s_dyad "eval_dyad_split" (VI 3) (VL [VI 1; VI 2; VI 3; VI 4])) = false.
+Proof. vm_compute. reflexivity. Qed.
+
+(* ------------------------------------------------------------------ atomic monads (vec_fn) *)
+Section ValInd.
+  Variable P : val -> Prop.
+  Hypothesis HI : forall z, P (VI z).
+  Hypothesis HR : forall r, P (VR r).
+  Hypothesis HC : forall c, P (VC c).
+  Hypothesis HS : forall s, P (VS s).
+  Hypothesis HY : forall s, P (VY s).
+  Hypothesis HU : P VU.
+  Hypothesis HL : forall l, Forall P l -> P (VL l).
+  Fixpoint val_ind' (v : val) : P v :=
+    match v with
+    | VI z => HI z | VR r => HR r | VC c => HC c | VS s => HS s | VY s => HY s | VU => HU
+    | VL l => HL l ((fix go (l : list val) : Forall P l :=
+                       match l with [] => Forall_nil P | x :: r => Forall_cons x (val_ind' x) (go r) end) l)
+    end.
+End ValInd.
+
+Lemma map_leaves_rect : forall sf sh n a, rshape a = Some sh -> n = List.length sh -> map_leaves n sf a = s1 sf a.
+Proof.
+  intros sf. induction sh as [|d s IH]; intros n a Ha ->.
+  - pose proof (rshape_nil_atom _ Ha) as Na. cbn [List.length map_leaves]. destruct a; try discriminate Na; reflexivity.
+  - destruct (rshape_cons_list _ _ _ Ha) as [la ->]. destruct (rshape_list _ _ Ha) as [sa [E Fa]]. inversion E. subst sa.
+    cbn [List.length map_leaves s1]. f_equal. apply rmap_ext. intros x Hx. rewrite Forall_forall in Fa.
+    apply IH; [apply Fa; exact Hx|reflexivity].
+Qed.
+
+Lemma leaf1_nonobj : forall sf a, is_obj a = false -> leaf1 sf a = s1 sf a.
+Proof.
+  intros sf a H. unfold leaf1. destruct (is_arr a) eqn:Aa.
+  - destruct (is_arr_true _ Aa) as [l ->]. destruct (not_obj_list _ H) as [sh R].
+    apply (map_leaves_rect sf sh); [exact R|apply rdepth_rect; exact R].
+  - rewrite (rdepth_atom _ Aa). destruct a; try discriminate Aa; reflexivity.
+Qed.
+
+Theorem vec1_spec : forall sf fuel a, (depth a < fuel)%nat -> vec1 fuel (leaf1 sf) a = s1 sf a.
+Proof.
+  intros sf. induction fuel as [|f' IH]; intros a Hd; [lia|].
+  destruct (is_arr a) eqn:Aa.
+  - destruct (is_arr_true _ Aa) as [la ->]. cbn [vec1].
+    destruct (is_obj (VL la)) eqn:Oa; [|apply leaf1_nonobj; exact Oa].
+    cbn [s1]. f_equal. apply rmap_ext. intros x Hx. pose proof (depth_in _ _ Hx) as Dx.
+    destruct x as [z|r|c|s|s|[|y l']|]; try (apply leaf1_nonobj; reflexivity).
+    apply IH. lia.
+  - destruct a; try discriminate Aa; cbn [vec1]; apply leaf1_nonobj; reflexivity.
+Qed.
+
+Lemma s1_ext : forall (p : val -> bool) (f g : val -> res),
+  (forall x, is_arr x = false -> p x = true -> f x = g x) ->
+  forall a, all_leaves p a = true -> s1 f a = s1 g a.
+Proof.
+  intros p f g H. induction a using val_ind'; intros Ha; try (apply H; [reflexivity|exact Ha]).
+  cbn [s1]. f_equal. apply rmap_ext. intros x Hx. rewrite Forall_forall in H0. apply H0; [exact Hx|].
+  eapply all_leaves_in; eassumption.
+Qed.
+
+Local Open Scope string_scope.
+Local Open Scope Z_scope.
+
+Lemma negate_holds : forall a, canonical a = true -> m_monad "eval_monad_negate" a = s_monad "eval_monad_negate" a.
+Proof.
+  intros a Hc. unfold m_monad. rewrite Hc. change (s_monad "eval_monad_negate" a) with (s1 sc_neg a).
+  cbn [negb]. unfold m_negate. apply vec1_spec. lia.
+Qed.
+
+Lemma floor_holds : forall a, canonical a = true -> all_leaves floor_fits a = true ->
+  m_monad "eval_monad_floor" a = s_monad "eval_monad_floor" a.
+Proof.
+  intros a Hc Hf. unfold m_monad. rewrite Hc. change (s_monad "eval_monad_floor" a) with (s1 s_floor a).
+  cbn [negb]. unfold m_floor. rewrite vec1_spec by lia.
+  apply (s1_ext floor_fits); [|exact Hf].
+  intros x _ Hx. destruct x as [z|r| | | | |]; try discriminate Hx; try reflexivity.
+  cbn [sc_floor s_floor]. unfold floor_fits in Hx. unfold rfloor.
+  destruct (rfloor_exact r) as [z|]; [|discriminate Hx]. rewrite Hx.
+  unfold clip64. apply andb_true_iff in Hx. destruct Hx as [H1 H2]. apply Z.leb_le in H1. apply Z.ltb_lt in H2.
+  replace (z <? - two63) with false by (symmetry; apply Z.ltb_ge; lia).
+  replace (two63 <=? z) with false by (symmetry; apply Z.leb_gt; lia). reflexivity.
+Qed.
+
+Lemma reciprocal_holds : forall a, canonical a = true -> m_monad "eval_monad_reciprocal" a = s_monad "eval_monad_reciprocal" a.
+Proof.
+  intros a Hc. unfold m_monad. rewrite Hc. cbn [negb].
+  change (s_monad "eval_monad_reciprocal" a) with (if negb (is_arr a) && is_zero a then Ok VU else s1 sc_recip a).
+  unfold m_recip.
+  destruct a as [z|r|c|s|s|l|]; try (cbn [is_arr negb andb is_zero]; apply vec1_spec; cbn; lia).
+  - destruct z; try reflexivity.
+  - cbn [is_arr negb andb is_zero]. destruct (is_real_zero r); reflexivity.
+Qed.
+
+Lemma atom_holds : forall a, canonical a = true -> m_monad "eval_monad_atom" a = s_monad "eval_monad_atom" a.
+Proof. intros a Hc. unfold m_monad. rewrite Hc. reflexivity. Qed.
+
+Lemma size_holds : forall a, canonical a = true -> dom_monad "eval_monad_size" a = true ->
+  m_monad "eval_monad_size" a = s_monad "eval_monad_size" a.
+Proof. intros a Hc Hd. unfold m_monad. rewrite Hc. destruct a; try reflexivity; discriminate Hd. Qed.
+
+Lemma first_holds : forall a, canonical a = true -> (forall c s, a <> VS (c :: s)) ->
+  m_monad "eval_monad_first" a = s_monad "eval_monad_first" a.
+Proof.
+  intros a Hc Hn. unfold m_monad. rewrite Hc. destruct a as [z|r|c|[|c s]|s|[|x l]|]; try reflexivity.
+  exfalso. apply (Hn c s). reflexivity.
+Qed.
+
+Lemma enumerate_holds : forall a, canonical a = true -> m_monad "eval_monad_enumerate" a = s_monad "eval_monad_enumerate" a.
+Proof. intros a Hc. unfold m_monad. rewrite Hc. destruct a; reflexivity. Qed.
+
+Lemma list_holds : forall a, canonical a = true -> norm (VL [a]) = VL [a] ->
+  m_monad "eval_monad_list" a = s_monad "eval_monad_list" a.
+Proof.
+  intros a Hc Hn. unfold m_monad. rewrite Hc. cbn [negb].
+  change (m_monad "eval_monad_list" a) with (m_monad "eval_monad_list" a).
+  destruct a; try reflexivity; unfold m_list; rewrite Hn; reflexivity.
+Qed.
+
+(* ------------------------------------------------------------------ Join, Index *)
+Definition join_ragged (a b : val) : bool :=
+  let r := (members a ++ members b)%list in
+  all_lists_same_len r && negb (forallb (fun sh => shape_eqb sh (hd None (map npshape r))) (map npshape r)).
+
+Lemma join_holds : forall a b, canonical a && canonical b = true ->
+  dom_dyad "eval_dyad_join" a b = true -> join_ragged a b = false ->
+  norm (VL (members a ++ members b)) = VL (members a ++ members b) ->
+  m_dyad "eval_dyad_join" a b = s_dyad "eval_dyad_join" a b.
+Proof.
+  intros a b Hc Hd Hr Hn. unfold m_dyad. rewrite Hc. cbn [negb].
+  change (m_join a b = s_dyad "eval_dyad_join" a b).
+  unfold join_ragged in Hr.
+  destruct a as [z|r|c|s|s|l|]; destruct b as [z'|r'|c'|s'|s'|l'|];
+    try discriminate Hd;
+    try reflexivity;
+    try (unfold m_join; cbn [text_of members] in *; try rewrite Hr; rewrite Hn; reflexivity).
+Qed.
+
+Lemma py_index_in_range : forall l i, 0 <= i < zlen l -> py_index l i = Ok (ix VU l i).
+Proof.
+  intros l i H. unfold py_index.
+  replace ((0 <=? i) && (i <? zlen l)) with true by (symmetry; apply andb_true_iff; split; [apply Z.leb_le|apply Z.ltb_lt]; lia).
+  unfold ix. destruct (nth_error l (Z.to_nat i)) as [x|] eqn:E.
+  - rewrite (nth_error_nth _ _ VU E). reflexivity.
+  - apply nth_error_None in E. unfold zlen in H. lia.
+Qed.
+
+Lemma rmap_index : forall l zs, Forall (fun i => 0 <= i < zlen l) zs -> rmap (py_index l) zs = Ok (map (ix VU l) zs).
+Proof.
+  intros l. induction zs as [|i zs IH]; intros H; [reflexivity|].
+  inversion H as [|? ? Hi Hr]. subst. cbn [rmap map]. rewrite py_index_in_range by exact Hi. cbn [bind].
+  rewrite IH by exact Hr. reflexivity.
+Qed.
+
+Lemma joined_index_chars : forall s zs, Forall (fun i => 0 <= i < zlen s) zs ->
+  joined (map (ix VU (chars s)) zs) = Ok (VS (map (ix 0 s) zs)).
+Proof.
+  intros s zs H. assert (E : map (ix VU (chars s)) zs = chars (map (ix 0 s) zs)).
+  { unfold chars at 2. rewrite map_map. apply map_ext_in. intros i Hi. rewrite Forall_forall in H. apply ix_chars. apply H. exact Hi. }
+  rewrite E. apply joined_chars.
+Qed.
+
+Lemma index_ints_in_range : forall n lb, forallb (fun v => match v with VI i => (0 <=? i) && (i <? n) | _ => false end) lb = true ->
+  exists zs, ints_of lb = Some zs /\ Forall (fun i => 0 <= i < n) zs.
+Proof.
+  intros n. induction lb as [|y lb IH]; intros H; [exists []; split; [reflexivity|constructor]|].
+  cbn [forallb] in H. apply andb_true_iff in H. destruct H as [Hy Hl]. destruct (IH Hl) as [zs [Hz Hf]].
+  destruct y; try discriminate Hy. apply andb_true_iff in Hy. destruct Hy as [H0 H1]. apply Z.leb_le in H0. apply Z.ltb_lt in H1.
+  exists (z :: zs). cbn [ints_of]. rewrite Hz. split; [reflexivity|constructor; [lia|exact Hf]].
+Qed.
+
+(* a list or string indexed by an in-range integer or a 1-D list of in-range integers *)
+Lemma index_holds : forall a b, canonical a && canonical b = true ->
+  dom_dyad "eval_dyad_at_index" a b = true ->
+  (forall l zs, a = VL l -> ints_of (members b) = Some zs -> is_arr b = true -> norm (VL (map (ix VU l) zs)) = VL (map (ix VU l) zs)) ->
+  m_dyad "eval_dyad_at_index" a b = s_dyad "eval_dyad_at_index" a b.
+Proof.
+  intros a b Hc Hd Hn. unfold m_dyad. rewrite Hc. cbn [negb].
+  change (m_index a b = s_dyad "eval_dyad_at_index" a b).
+  destruct a as [z|r|c|s|s|l|]; try discriminate Hd.
+  - (* string *)
+    change (dom_dyad "eval_dyad_at_index" (VS s) b) with
+      (match b with
+       | VI i => (0 <=? i) && (i <? zlen s)
+       | VL lb => (npdepth b =? 1)%nat && forallb (fun v => match v with VI i => (0 <=? i) && (i <? zlen s) | _ => false end) lb
+       | _ => false end) in Hd.
+    unfold m_index. cbn [as_members].
+    destruct b as [i|r|c|t|t|lb|]; try discriminate Hd.
+    + apply andb_true_iff in Hd. destruct Hd as [H0 H1]. apply Z.leb_le in H0. apply Z.ltb_lt in H1.
+      rewrite py_index_in_range by (rewrite zlen_chars; lia). rewrite ix_chars by lia. reflexivity.
+    + apply andb_true_iff in Hd. destruct Hd as [_ Hall]. destruct (index_ints_in_range _ _ Hall) as [zs [Hz Hf]].
+      change (s_dyad "eval_dyad_at_index" (VS s) (VL lb)) with (Ok (VS (map (ix 0 s) (zints (VL lb))))).
+      unfold zints. cbn [members]. rewrite Hz.
+      destruct lb as [|y lb']; [cbn in Hz; inversion Hz; reflexivity|].
+      try rewrite Hz. rewrite rmap_index by (rewrite zlen_chars; exact Hf). cbn [bind]. apply joined_index_chars. exact Hf.
+  - (* list *)
+    change (dom_dyad "eval_dyad_at_index" (VL l) b) with
+      (match b with
+       | VI i => (0 <=? i) && (i <? zlen l)
+       | VL lb => (npdepth b =? 1)%nat && forallb (fun v => match v with VI i => (0 <=? i) && (i <? zlen l) | _ => false end) lb
+       | _ => false end) in Hd.
+    unfold m_index. cbn [as_members].
+    destruct b as [i|r|c|t|t|lb|]; try discriminate Hd.
+    + apply andb_true_iff in Hd. destruct Hd as [H0 H1]. apply Z.leb_le in H0. apply Z.ltb_lt in H1.
+      rewrite py_index_in_range by lia. reflexivity.
+    + apply andb_true_iff in Hd. destruct Hd as [_ Hall]. destruct (index_ints_in_range _ _ Hall) as [zs [Hz Hf]].
+      change (s_dyad "eval_dyad_at_index" (VL l) (VL lb)) with (Ok (VL (map (ix VU l) (zints (VL lb))))).
+      unfold zints. cbn [members]. rewrite Hz.
+      destruct lb as [|y lb']; [cbn in Hz; inversion Hz; reflexivity|].
+      try rewrite Hz. rewrite rmap_index by exact Hf. cbn [bind].
+      rewrite (Hn l zs eq_refl Hz eq_refl). reflexivity.
+Qed.
+
+Lemma not_holds : forall a, canonical a = true -> dom_monad "eval_monad_not" a = true ->
+  m_monad "eval_monad_not" a = s_monad "eval_monad_not" a.
+Proof.
+  intros a Hc Hd. unfold m_monad. rewrite Hc.
+  destruct a as [z|r|c|[|c s]|s|[|x l]|]; try reflexivity; try discriminate Hd.
+Qed.
+
+Lemma refuted_witnesses_2 :
+  refutes_m "shape-ragged" "eval_monad_shape" (VL [VI 1; VL [VI 2]]) &&
+  refutes_m "shape-strlike-member" "eval_monad_shape" (VL [VC 97; VC 98]) &&
+  refutes_m "group-sorted-order" "eval_monad_groupby" (VS [104; 101; 108; 108; 111; 32; 102; 111; 111]) &&
+  refutes_m "group-non-numeric" "eval_monad_groupby" (VL [VI 1; VS [97]]) &&
+  refutes_m "range-string-sorted" "eval_monad_range" (VS [104; 101; 108; 108; 111]) = true.
+Proof. vm_compute. reflexivity. Qed.
